@@ -31,6 +31,9 @@ def apply(c):
             raise AnchorLost('%s: external_body marker of %s lost' % (rel, W))
         c.wr(rel, s[:k] + seg.replace('#[verifier::external_body]\n', '', 1) + s[decl:])
         c.externalised[:] = [e for e in c.externalised if not (e[0].startswith(rel) and e[0].endswith(':: ' + W))]
+        if tname == 'SOA':
+            # two names + five integers: the largest of the generated window proofs (13-18 M units); margin for the canary run
+            c.mark(rel, h, W, '#[verifier::rlimit(30)]')
         # group statements: consecutive trailing int fields of SOA are written by write_common
         groups = []   # (kind, [fields], anchor)
         i = 0
